@@ -1429,6 +1429,8 @@ class Gen(object):
                 op['reg'] = self.cands().index(ir)
         if r.random() < 0.4:
             op['method'] = r.choice(['raw', 'repr'])
+        if op['field'].startswith('array_') and r.random() < 0.4:
+            op['method'] = 'raw'            # (the NumPy route delivers differently under the raw method)
         if r.random() < 0.2:
             op['same_as'] = r.choice([f for f in REG_FIELDS if f != op['field']])
         return op
@@ -1669,6 +1671,7 @@ class Gen(object):
             add(2, self.g_observe)
             add(2, self.g_chain2)
             add(1, self.g_probe_bigstore_then_convert)
+            add(1, self.g_probe_objpath_rounding)
             if p.p_register > 0:
                 add(int(10 * p.p_register) + 1, self.g_register_set, 'registers')
             if p.p_cb > 0:
@@ -1888,6 +1891,38 @@ class Gen(object):
             return sh
         self.on_last(self.g_shift, fix)
         return op
+
+    def g_probe_objpath_rounding(self):
+        """Negative n_frac, and a small integer whose scaled value lies a fraction above the upper bound (or
+        below the lower one) and truncates ONTO the bound - next to an element beyond 64 bits (the whole
+        array then takes the library's Python-number path), or carried by a list of np.uint64 scalars."""
+        r = self.rng
+        signed = r.random() < 0.6
+        nw = r.randint(2, 12)
+        k = r.randint(1, 5)
+        fmt = [signed, nw, -k]
+        lo, hi = Q.bounds(signed, nw)
+        up = r.random() < 0.6 or not signed
+        small = hi * (1 << k) + (1 << k) - r.randint(1, (1 << k) - 1) if up else lo * (1 << k) - ((1 << k) - r.randint(1, (1 << k) - 1))
+        kw = {'overflow': r.choice(['saturate', 'saturate', 'wrap'])}
+        q = r.random()
+        if q < 0.5:
+            big = r.choice([(1 << 63) - 1, -(1 << 63), (1 << 63) - 1 - r.randrange(1 << 10)])
+            items = [big, small]
+            r.shuffle(items)
+            val = ['a', 'int64', [2], [[it, 0] for it in items]]
+        elif q < 0.7:
+            items = [r.choice([1, -1]) * ((1 << r.randint(64, 70)) + r.randrange(100)), small]
+            r.shuffle(items)
+            val = ['l', [['i', it] for it in items]]
+        elif small >= 0:
+            val = ['l', [['n', 'uint64', small, 0]] + ([['n', 'uint64', r.randint(0, 3), 0]] if r.random() < 0.5 else [])]
+        else:
+            val = ['l', [['n', 'int64', small, 0]]]
+        ks, i = self.pick(lambda o: self.is_real(o) and not o.scaled)
+        if ks is None or r.random() < 0.6:
+            return {'op': 'new', 'val': val, 'fmt': fmt, 'kw': kw}
+        return {'op': 'new', 'val': val, 'fmt': fmt, 'kw': kw, 'ncb': 1}
 
     def g_probe_bigstore_then_convert(self):
         """A store that needed Python integers, then that object as the source of a conversion."""
